@@ -126,6 +126,11 @@ class LazyLogging(SimpleCodemod, NameAndAncestorResolutionMixin):
             # Skip logging ints, etc. Eg: `logging.info(2+2)`
             return None
 
+        if not all(self._can_requote(piece) for piece in self._string_pieces(binop)):
+            # The pieces are glued together inside one double-quoted, single-line literal:
+            # a piece written with other quotes may contain a `"` or a newline
+            return None
+
         format_strings, format_args, prefixes = self.process_concat(binop)
         if len(set(prefixes)) > 1:
             # TODO: handle more complex case of str concat with different prefixes, such as
@@ -140,6 +145,21 @@ class LazyLogging(SimpleCodemod, NameAndAncestorResolutionMixin):
                 value=f"""{'"' if type_both_sides == BaseType.STRING else ""}{"".join(format_strings)}\""""
             )
         return [cst.Arg(value=combined_format_string)] + format_args
+
+    def _string_pieces(self, node: cst.CSTNode):
+        match node:
+            case cst.BinaryOperation(operator=cst.Add()):
+                yield from self._string_pieces(node.left)
+                yield from self._string_pieces(node.right)
+            case cst.SimpleString():
+                yield node
+
+    @staticmethod
+    def _can_requote(piece: cst.SimpleString) -> bool:
+        """Can the raw content of `piece` be placed between double quotes unchanged?"""
+        if piece.quote == '"':
+            return True
+        return piece.quote == "'" and '"' not in piece.raw_value
 
     def make_args_for_modulo(self, binop: cst.BinaryOperation) -> list[cst.Arg]:
         format_string = binop.left
